@@ -326,9 +326,20 @@ def gen_pred(rnd, names, kinds, pools, depth, in_subq=None):
             sub = in_subq(rnd, kind)
             if sub is not None:
                 return ["cmp", "in", c, ["subq", sub]]
-        return ["cmp", rnd.choice(["in", "notIn"]), c, ["tuple", [gen_const(rnd, kind, pool) for _ in range(n)]]]
+        elems = [gen_const(rnd, kind, pool) for _ in range(n)]
+        same = [j for j in range(len(names)) if kinds[j] == kind and j != i]
+        if same and rnd.random() < 0.2:
+            elems[rnd.randrange(len(elems))] = col(names[rnd.choice(same)])
+        return ["cmp", rnd.choice(["in", "notIn"]), c, ["tuple", elems]]
     if k < 0.74:
         lo, hi = gen_const(rnd, kind, pool), gen_const(rnd, kind, pool)
+        same = [j for j in range(len(names)) if kinds[j] == kind and j != i]
+        if same and rnd.random() < 0.25:
+            # a bound (or the point) may be another column of the same kind
+            if rnd.random() < 0.5:
+                lo = col(names[rnd.choice(same)])
+            else:
+                hi = col(names[rnd.choice(same)])
         return ["between", rnd.random() < 0.75, c, lo, hi]
     if k < 0.90 and kind == "str":
         return ["cmp", rnd.choice(["like", "like", "notLike"]), c, ["str", gen_like(rnd, pool)]]
